@@ -68,6 +68,14 @@ def forLoop {m : Type → Type} [Monad m] {α σ ρ : Type} : List α → σ →
     | Sum.inl r => pure r
     | Sum.inr s' => forLoop xs s' body k
 
+/-- `if x is not None: A else: B` as a named combinator -/
+def optCase {α β : Type} (o : Option α) (f : α → β) (g : β) : β :=
+  match o with
+  | some a => f a
+  | none => g
+@[simp] theorem optCase_some {α β : Type} (a : α) (f : α → β) (g : β) : optCase (some a) f g = f a := rfl
+@[simp] theorem optCase_none {α β : Type} (f : α → β) (g : β) : optCase (none : Option α) f g = g := rfl
+
 /-- what one round of a `for` loop with `break` / `continue` in its body answers -/
 inductive Step (ρ σ : Type) where
   | ret (r : ρ)        -- `return r`
